@@ -16,6 +16,7 @@ import ast
 from sa import mutate as M
 from sa.consts import UNKNOWN
 from sa import pattern as PT
+from sa import values as VX
 from sa.ctx import Ctx
 from sa.loader import AnalysisError, call_name, norm, own_nodes, parent
 from sa.ranges import has, has_bound, refusal_constraints
@@ -110,7 +111,11 @@ def rule_grammar(ctx: Ctx, rep: Report) -> None:
     # tree functions only inside tr(); miniscript only in wsh / tr leaves
     pe = ctx.func(f"{DS}._parse_expression")
     txt = PT.text(pe)
-    rep.ob(rule, "tree_functions_in_tr_only", "if name in _TREE_FUNCTIONS: _assert_position(name, context, (_P2TR,))" in txt, pe.where(), "multi_a / sortedmulti_a only inside tr()")
+    gpe = ctx.cfg(pe)
+    vxe = VX.of(pe)
+    tree_only = any(isinstance(c, ast.Call) and call_name(c) == "_assert_position" and any(VX.has(v, "_assert_position($$n, $$c, (_P2TR,))") for v in vxe.value_of(c))
+                    and any("name in _TREE_FUNCTIONS" in t and pol for t, pol in gpe.facts_at_ast(c)) for c in own_nodes(pe.node))
+    rep.ob(rule, "tree_functions_in_tr_only", tree_only, pe.where(), "multi_a / sortedmulti_a only inside tr()")
     rep.ob(rule, "miniscript_contexts", ctx.const(DS, "_TREE_FUNCTIONS") == ("multi_a", "sortedmulti_a") and "name not in _PARSERS and context in _MINISCRIPT_CONTEXTS" in txt, pe.where(), "other names are miniscript only inside wsh() or a tr() leaf")
     rep.ob(rule, "unknown_function_refused", any(c.op == "not in" and c.subject == "name" for c in refusal_constraints(ctx, pe)), pe.where(), "an unknown function is refused")
     ap = ctx.func(f"{DS}._assert_position")
